@@ -23,4 +23,30 @@ Register r20("C20", [](Tier t) {
     // h: callable kind (fn pointer | small closure | large closure | Runnable), #lvalue args, via constructor, #isFinished polls
     return genCase("C20", genHeader({{0, 3}, {0, 2}, {0, 1}, {0, 3}}), rc::gen::just(std::vector<Op>{}), genSched(t == THOROUGH ? 80 : 40));
 });
+
+// ---- small-scope program spaces
+EnumSpace poolspace(const std::string &prop) {
+    EnumSpace e;
+    // max threads in {1,2,3} x program in a fixed list of short owner programs (every one ends in the implicit stop())
+    static const std::vector<std::vector<int>> progs = {
+        {}, {START_TASK}, {START_TASK, START_TASK}, {START_TASK, START_TASK, START_TASK}, {START_FUNCTOR}, {START_TASK, OWNER_YIELD}, {START_TASK, DRAIN},
+        {START_TASK, START_TASK, DRAIN}, {START_TASK, CLEAR}, {START_TASK, START_TASK, CLEAR, DRAIN}, {START_TASK, STOP, START_TASK}, {START_TASK, STOP, START_TASK, DRAIN},
+        {START_TASK, START_TASK, STOP}, {STOP, START_TASK}, {START_TASK, CLEAR, START_TASK, DRAIN}, {START_FUNCTOR, START_TASK, DRAIN}};
+    e.count = progs.size() * 3;
+    e.description = "ThreadPool owner programs: 16 fixed short programs (0-3 tasks, clear/drain/stop/restart) x max thread count in {1,2,3}";
+    e.at = [prop](size_t i) {
+        Case c; c.prop = prop; c.h = {(int)(i % 3)};
+        for (int k : progs[i / 3]) c.ops.push_back(Op{k, 0, 0, 0});
+        return c;
+    };
+    return e;
+}
+RegisterEnum e07("C07", poolspace("C07"));
+RegisterEnum e08("C08", poolspace("C08"));
+RegisterEnum e20("C20", [] {
+    EnumSpace e; e.count = 4 * 3 * 2 * 2;
+    e.description = "Thread start scenarios: callable kind (4) x lvalue arguments (0-2) x start()/constructor x 1-2 isFinished() polls";
+    e.at = [](size_t i) { Case c; c.prop = "C20"; c.h = {(int)(i % 4), (int)((i / 4) % 3), (int)((i / 12) % 2), (int)((i / 24) % 2)}; return c; };
+    return e;
+}());
 } // namespace
